@@ -65,7 +65,9 @@ impl Acc {
         ctx.add_transitions(self.transitions);
         ctx.add_nontrivial(self.nontrivial);
         ctx.add_evaluations(self.evals);
-        ctx.outcome_set_merge(&self.outcomes);
+        for v in &self.outcomes {
+            ctx.outcome(v);
+        }
     }
 }
 
@@ -274,6 +276,10 @@ fn sweep<D: Dom>(ctx: &Ctx, dom: &str, fam: Vec<D>, class: &(dyn Fn(&D, &D, &D::
 where
     D::Real: std::fmt::Debug,
 {
+    if std::env::var("C03_COUNT_ONLY").is_ok() {
+        eprintln!("[C03] {dom}: {} values, {} ordered pairs", fam.len(), fam.len() * fam.len());
+        return;
+    }
     let fam: Vec<Pre<D>> = fam.into_iter().map(pre).collect();
     let n = fam.len() as u64;
     ctx.stat(&format!("{dom}: family size"), n);
@@ -352,17 +358,15 @@ fn with_hints(base: &[IvSpec], lbs: &[Option<i64>], ubs: &[Option<i64>], ds: &[u
     out
 }
 fn iv_family(thorough: bool) -> Vec<IvSpec> {
-    let mut fam;
     if thorough {
-        let e1: Vec<i64> = vec![-128, -127, -126, -64, -5, -3, -2, -1, 0, 1, 2, 3, 4, 5, 6, 8, 9, 16, 64, 125, 126, 127];
+        let e1: Vec<i64> = vec![-128, -127, -126, -64, -5, -3, -2, -1, 0, 1, 2, 3, 4, 6, 8, 9, 64, 126, 127];
         let base = intervals(1, &e1, 16);
-        fam = with_hints(&base, &[None, Some(-128), Some(-100), Some(-4), Some(0)], &[None, Some(3), Some(7), Some(100), Some(127)], &[0, 1, 4, 255]);
+        with_hints(&base, &[None, Some(-128), Some(-100), Some(-4)], &[None, Some(3), Some(7), Some(127)], &[0, 1, 4, 255])
     } else {
-        let e1: Vec<i64> = vec![-128, -127, -3, -1, 0, 1, 2, 4, 6, 8, 126, 127];
+        let e1: Vec<i64> = vec![-128, -127, -3, -1, 0, 1, 2, 4, 6, 8, 127];
         let base = intervals(1, &e1, 8);
-        fam = with_hints(&base, &[None, Some(-128), Some(-2)], &[None, Some(7), Some(127)], &[0, 3, 200]);
+        with_hints(&base, &[None, Some(-128), Some(-2)], &[None, Some(7), Some(127)], &[0, 3, 200])
     }
-    fam
 }
 /// 8-byte intervals around the boundaries where the implementation switches paths
 /// (`try_to_u64` of a length, i64 conversions). Inclusion is decided symbolically.
@@ -370,7 +374,7 @@ fn iv_family_w8(thorough: bool) -> Vec<IvSpec> {
     let (mn, mx) = (i64::MIN, i64::MAX);
     let mut e8: Vec<i64> = vec![mn, mn + 1, -(1 << 32) - 1, -1, 0, 1, 3, (1 << 31) - 1, 1 << 32, mx - 1, mx];
     if thorough {
-        e8.extend([mn + 2, -(1 << 31), -2, 2, 6, 1 << 31, mx - 2]);
+        e8.extend([-(1 << 31), -2, 2, 6, mx - 2]);
         e8.sort();
     }
     let base = intervals(8, &e8, 8);
@@ -605,7 +609,7 @@ fn main() {
         "bounds",
         json!({
             "BitvectorDomain": "Top(1) and all 256 one-byte values, all ordered pairs; 5 eight-byte values",
-            "IntervalDomain": if th { "all well-formed 1-byte strided intervals with both bounds in a 22-value boundary alphabet (all strides dividing the length for lengths <= 16, else {1,2,3,4,5,8,len/3,len/2,len}) x admissible widening hints (lower in {-,-128,-100,-4,0}, upper in {-,3,7,100,127}) x delay in {0,1,4,255}; all ordered pairs" } else { "all well-formed 1-byte strided intervals with both bounds in a 12-value boundary alphabet x admissible widening hints (lower in {-,-128,-2}, upper in {-,7,127}) x delay in {0,3,200}; all ordered pairs" },
+            "IntervalDomain": if th { "all well-formed 1-byte strided intervals with both bounds in a 19-value boundary alphabet (all strides dividing the length for lengths <= 16, else {1,2,3,4,5,8,len/3,len/2,len}) x admissible widening hints (lower in {-,-128,-100,-4}, upper in {-,3,7,127}) x delay in {0,1,4,255}; all ordered pairs" } else { "all well-formed 1-byte strided intervals with both bounds in an 11-value boundary alphabet x admissible widening hints (lower in {-,-128,-2}, upper in {-,7,127}) x delay in {0,3,200}; all ordered pairs" },
             "IntervalDomain/w8": "8-byte intervals over a boundary alphabet around i64::MIN/MAX, +-2^31, +-2^32, hints at MIN/MAX, delays up to 2^40; inclusion decided symbolically",
             "DataDomain<IntervalDomain>": "{absolute in a list of intervals or none} x {id0 offset or none} x {id1 offset or none} x {top flag}; all ordered pairs",
             "Taint": "Tainted/Top of widths 1 and 8, pairs of equal width",
